@@ -49,6 +49,9 @@ type Knobs struct {
 	// RealSQL: the data methods of internal/storage/ledger run for real and their SQL is interpreted by
 	// sqlmini; false = they are served by the simpg contract model (DESIGN.md section 15)
 	RealSQL bool `json:"real_sql,omitempty"`
+	// RealSysSQL (replication world only): the data part of the replication storage calls is the real
+	// internal/storage/system DefaultStore, its SQL interpreted by sqlmini
+	RealSysSQL bool `json:"real_sys_sql,omitempty"`
 }
 
 type Incarnation struct {
